@@ -134,10 +134,13 @@ CLAIMED["C13"] = dict(
          "donor dicts with distinct donor keys: C13_no (unchanged), C13_yes (own entries + donor entries it lacked, the SAME "
          "objects), C13_overwrite (donor's version on conflicts, same objects), C13_copy (fresh objects — ids never used before — "
          "for the entries it lacked, receiver's objects kept on conflicts), C13_copyover (fresh objects for every donor entry); "
+         "C13_copies_content — a copy is named by its key and has the CONTENT of the donor's object, and every object that "
+         "existed before (the donor root's included) is untouched; C13_receiver_gets_merged — at heap level the receiving root's "
+         "dict after the metadata step of graft / cut / force-add is what the loop computed; "
          "C13_table — the option literals accepted by the source (regenerated from node.py) are the documented five.",
     note="Entries keyed by the Metadata object's own name (the only state the public setter produces) is a hypothesis of "
-         "C13_yes/_overwrite. Content equality of a copy with its original is part of the model's mergeStep and is compared, "
-         "together with object identity (shared vs. independent), by the correspondence after every graft / cut.",
+         "C13_yes/_overwrite. Object identity (shared vs. independent) and content are also compared by the correspondence after "
+         "every graft / cut.",
     technique="Lean 4 induction over the merge loop + regenerated option table + differential correspondence incl. object identity",
     design="7 C13")
 
